@@ -428,19 +428,26 @@ def validate(ctx, lines):
 
 
 # --------------------------------------------------------------------------------------------------
-def _build(ctx):
-    exes = {1: build.harness("c17_async", ["c17_async.cc"], "asan")}
+def _build_v1():
+    return build.harness("c17_async", ["c17_async.cc"], "asan")
+
+
+def _build_v2():
     try:
-        exes[2] = build.harness("c17_async", ["c17_async.cc"], "asan", extra=ABI2)
-        caps = hrun.run_harness(exes[2], ["caps"]).json()
+        exe = build.harness("c17_async", ["c17_async.cc"], "asan", extra=ABI2)
+        caps = hrun.run_harness(exe, ["caps"]).json()
         if not caps or not caps[0].get("sgauge"):
             raise Broken("ABI v2 harness has no synchronous gauge")
+        return exe
     except Broken as b:
         # the synchronous Gauge exists only with ABI v2; if that flag set does not build, cover observable
         # gauges only and say so (never silently)
         log("ABI v2 flavour unavailable, synchronous gauge NOT covered:", str(b)[:300])
-        exes[2] = None
-    return exes
+        return None
+
+
+def _build(ctx):
+    return {1: _build_v1(), 2: _build_v2()}
 
 
 def run(ctx):
@@ -459,13 +466,21 @@ def run(ctx):
                          "MetricsAsyncTrace; distinct_nontrivial: distinct behaviours (by content, per ABI build) with at least "
                          "one collection that delivers a point + distinct recorded histories with at least one callback invocation "
                          "or delivered point")
-    exes = _build(ctx)
-    log("built harnesses at %.0fs" % ctx.timer.s())
+    # the two SDK builds (the ABI v2 flavour is rebuilt after every change of /repo) overlap with the TLC work
+    bex = cf.ThreadPoolExecutor(max_workers=2)
+    f1, f2 = bex.submit(_build_v1), bex.submit(_build_v2)
+    try:
+        model_check(ctx)
+        log("model checking done at %.0fs" % ctx.timer.s())
+        behs = generate(ctx, True)
+        log("%d behaviours generated at %.0fs" % (len(behs), ctx.timer.s()))
+    finally:
+        bex.shutdown(wait=True)
+    exes = {1: f1.result(), 2: f2.result()}
+    log("harnesses ready at %.0fs" % ctx.timer.s())
     ctx.extra["sync_gauge_covered"] = bool(exes.get(2))
-    model_check(ctx)
-    log("model checking done at %.0fs" % ctx.timer.s())
-    behs = generate(ctx, bool(exes.get(2)))
-    log("%d behaviours generated at %.0fs" % (len(behs), ctx.timer.s()))
+    if not exes[2]:
+        behs = [b for b in behs if not _has_sg(b["steps"])]
     stats = replay_behaviours(ctx, exes, behs)
     log("replayed at %.0fs" % ctx.timer.s())
     ctx.extra["replay"] = stats
